@@ -1105,6 +1105,10 @@ func rulePanic(c *Ctx) {
 						} else {
 							c.ok(key, in.Pos(), "tabled: %s", why)
 						}
+					} else if callee.Name() == "MustCompile" && callee.Pkg.Pkg.Path() == "regexp" && quoteMetaOfOneRune(in, x.Common().Args[0]) {
+						// the same argument by role, wherever the code sits: the pattern is QuoteMeta(s) and the call is
+						// dominated by utf8.RuneCountInString(s) == 1 for the same s
+						c.ok(key, in.Pos(), "by role: the pattern is regexp.QuoteMeta(s) of a string s that the dominating test utf8.RuneCountInString(s) == 1 shows to be one valid rune, which is a valid pattern")
 					} else {
 						c.bad(key, in.Pos(), "%s.%s is called with a run-time value: it panics when the value is invalid (e.g. a script-controlled string that is not a valid regular expression / not valid UTF-8)", callee.Pkg.Pkg.Name(), callee.Name())
 					}
@@ -1239,6 +1243,41 @@ func dominatedByOneRune(in ssa.Instruction) bool {
 		}
 		call, ok := bo.X.(*ssa.Call)
 		if !ok || call.Call.StaticCallee() == nil || call.Call.StaticCallee().Name() != "RuneCountInString" {
+			continue
+		}
+		if k, ok := bo.Y.(*ssa.Const); !ok || k.Value == nil || k.Value.ExactString() != "1" {
+			continue
+		}
+		if b.Dominates(blk) && !reachableAvoiding(b.Succs[1], b)[blk] {
+			return true
+		}
+	}
+	return false
+}
+
+// quoteMetaOfOneRune: pat is regexp.QuoteMeta(s) and the instruction is dominated by the true edge of
+// utf8.RuneCountInString(s) == 1 for the same value s.
+func quoteMetaOfOneRune(in ssa.Instruction, pat ssa.Value) bool {
+	qm, ok := pat.(*ssa.Call)
+	if !ok || qm.Call.StaticCallee() == nil || qm.Call.StaticCallee().Name() != "QuoteMeta" || len(qm.Call.Args) != 1 {
+		return false
+	}
+	subject := qm.Call.Args[0]
+	blk := in.Block()
+	for _, b := range blk.Parent().Blocks {
+		if len(b.Instrs) == 0 {
+			continue
+		}
+		ifi, ok := b.Instrs[len(b.Instrs)-1].(*ssa.If)
+		if !ok {
+			continue
+		}
+		bo, ok := ifi.Cond.(*ssa.BinOp)
+		if !ok || bo.Op != token.EQL {
+			continue
+		}
+		call, ok := bo.X.(*ssa.Call)
+		if !ok || call.Call.StaticCallee() == nil || call.Call.StaticCallee().Name() != "RuneCountInString" || len(call.Call.Args) != 1 || call.Call.Args[0] != subject {
 			continue
 		}
 		if k, ok := bo.Y.(*ssa.Const); !ok || k.Value == nil || k.Value.ExactString() != "1" {
